@@ -4,9 +4,9 @@ CONSTANTS
   SizeKB <- MCSize3
   PPKeys <- MCPP3
   ValKeys <- MCVal3
-  Limits <- MCLimits
+  Limits <- MCLimit1
   MB = 1000
-  MaxFaults = 1
+  MaxFaults = 0
   MaxReqLen = 2
   Chunked = TRUE
   Variant = "fixed"
